@@ -21,7 +21,7 @@ The abstract form is what travels to the Lean model; `source()` prints it as gen
 text (markup or new-style text syntax) for the real code.  Nothing here imports genshi at
 module level (workers stage it first).
 """
-import os, shutil, sys
+import json, os, random, shutil, sys
 
 PY_NS = 'http://genshi.edgewall.org/'
 XI_NS = 'http://www.w3.org/2001/XInclude'
@@ -364,6 +364,32 @@ def on_cycle(g, t):
     return False
 
 
+def load_order(case):
+    """a deterministic shuffle of the case's file names (plus one missing name): the order in which the
+    load-sequence stream loads them, one after the other, through one loader"""
+    names = sorted(set(p for d in case['dirs'] for p, _ in d)) + ['nope.html']
+    random.Random(json.dumps(case, sort_keys=True)).shuffle(names)
+    return names
+
+
+def load_sequence_real(case, dirs, names):
+    """`loader.load(name).stream` for every name in turn through one TemplateLoader(auto_reload=False), nothing rendered:
+    [[outcome, names of the templates the loader holds prepared afterwards]]"""
+    from genshi.template import TemplateLoader, NewTextTemplate, MarkupTemplate
+    loader = TemplateLoader(list(dirs), auto_reload=False, max_cache_size=200)
+    out = []
+    for name in names:
+        cls = NewTextTemplate if kind_of_file(case, name) == 'text' else MarkupTemplate
+        try:
+            loader.load(name, cls=cls).stream
+            o = 'ok'
+        except Exception as e:  # noqa
+            o = exc_name(e)
+        items = loader._cache._dict
+        out.append([o, sorted(str(k) for k in items if getattr(items[k].value, '_prepared', False))])
+    return out
+
+
 def run_real(case, base):
     """both modes on one materialised tree; returns {'inline': outcome, 'runtime': outcome}"""
     os.makedirs(base, exist_ok=True)
@@ -372,7 +398,8 @@ def run_real(case, base):
         prep = []
         a, b = render_real(case, dirs, False, prep), render_real(case, dirs, True)
         return {'inline': a[0], 'runtime': b[0], 'inline_then': a[1:], 'runtime_then': b[1:],
-                'inline_prepared': prep, 'kept': kept_static_real(case, dirs)}
+                'inline_prepared': prep, 'kept': kept_static_real(case, dirs),
+                'load_seq': load_sequence_real(case, dirs, load_order(case))}
     finally:
         shutil.rmtree(base, ignore_errors=True)
 
